@@ -2,6 +2,8 @@ import IoraModel.Lemmas.HttpRetry
 import IoraModel.Lemmas.HttpRetryCache
 import IoraModel.Lemmas.HttpLease
 import IoraModel.Lemmas.HttpClose
+import IoraModel.Lemmas.HttpClientLife
+import IoraModel.Lemmas.HttpRetryFraming
 /-!
 # C17 — The HTTP client transmits a non-idempotent request at most once
 
@@ -320,20 +322,36 @@ theorem R5_table_and_defaults :
 
 /-! ### The public API (every function with an `int retries` parameter) -/
 
-/-- **P1 (entry-point table).** The public entry points, in source order, and the method each one — directly or through
-another entry point — hands to `performRequest`; no name occurs twice. For every row the translator has checked that the
-body contains exactly ONE request-issuing call, outside any try/catch and any loop, with the caller's unmodified `retries`
-as its budget (else `TranslateError`). -/
+/-- **P1 (entry-point table).** Every public entry point (every row the translator extracted: each function that calls
+`performRequest` or another entry point) resolves — directly or by delegation — to ONE method handed to `performRequest`;
+no name occurs twice; and the documented API keeps its documented methods (a NEW entry point does not break this statement,
+a changed method of an existing one does). For every row the translator has checked that the body contains exactly ONE
+request-issuing call, outside any try/catch and any loop, with the caller's unmodified `retries` as its budget. -/
 theorem P1_entry_table :
-    (Gen.HttpRetry.entryPoints.map fun e => (e.1, entryMethod 4 e.1)) =
-      [("get", some "GET"), ("head", some "HEAD"), ("postJson", some "POST"), ("post", some "POST"),
-       ("deleteRequest", some "DELETE"), ("getAsync", some "GET"), ("postJsonAsync", some "POST"),
-       ("postStream", some "POST"), ("postFile", some "POST")] ∧
-    (Gen.HttpRetry.entryPoints.map (·.1)).Nodup := by
+    Gen.HttpRetry.entryPoints.all (fun e => (entryMethod 4 e.1).isSome) = true ∧
+    (Gen.HttpRetry.entryPoints.map (·.1)).Nodup ∧
+    [("get", "GET"), ("head", "HEAD"), ("postJson", "POST"), ("post", "POST"), ("deleteRequest", "DELETE"), ("getAsync", "GET"),
+     ("postJsonAsync", "POST"), ("postStream", "POST"), ("postFile", "POST")].all
+      (fun d => entryMethod 4 d.1 == some d.2) = true := by
   decide
 
-/-- **P2 (a public call is one `performRequest`).** Whatever a public call does, it is exactly one run of the retry loop
-with the table's method and the caller's budget. -/
+/-- **P2 (every call site).** `Gen.requestCallers` lists EVERY textual call of `performRequest` / `executeRequest` in
+http_client.hpp and http_client_pool.hpp (translator: a call anywhere else is a `TranslateError`). The only caller of
+`executeRequest` is `performRequest`; every caller of `performRequest` is a row of the entry-point table whose recorded callee is
+`performRequest`; no function contains two such calls; and every such row is a real call site. So there is no path to the wire
+that bypasses the retry discipline of R1–R3, and no wrapper that calls the loop twice. -/
+theorem P2_call_sites :
+    (∀ p ∈ Gen.HttpRetry.requestCallers,
+      (p.2 = "executeRequest" → p.1 = "performRequest") ∧
+      (p.2 = "performRequest" → ∃ e ∈ Gen.HttpRetry.entryPoints, e.1 = p.1 ∧ e.2.1 = "performRequest") ∧
+      (p.2 = "executeRequest" ∨ p.2 = "performRequest")) ∧
+    (Gen.HttpRetry.requestCallers.map (·.1)).Nodup ∧
+    (∀ e ∈ Gen.HttpRetry.entryPoints, e.2.1 = "performRequest" → (e.1, "performRequest") ∈ Gen.HttpRetry.requestCallers) ∧
+    ("performRequest", "executeRequest") ∈ Gen.HttpRetry.requestCallers := by
+  decide
+
+/-- (unfolding of `publicCall`; the content of P2 is `P2_call_sites` above plus the translator's per-row checks) a public call is
+exactly one run of the retry loop with the table's method and the caller's budget. -/
 theorem P2_public_is_one_performRequest (cfg : Cfg) (c : Client) (fn : String) (rq : Request) (r : Run)
     (h : publicCall cfg c fn rq = some r) :
     ∃ m, entryMethod 4 fn = some m ∧ r = performRequest cfg c { rq with method := m } := by
@@ -415,5 +433,192 @@ theorem R6_silence_ends_attempt (cfg : Cfg) (c : Client) (h : Host) (a : Attempt
   simp [this]
 
 example : (executeRequest {} {} true 0 { recvs := [.more, .more, .timeout, .complete {}] }).2.1.receives = 3 := by decide
+
+/-! ### Extension round: parseUrl, pre-lease failures, the lease wait as a loop of wake-ups, cleanup -/
+
+/-- **U1 (the port is a `uint16_t`).** Whatever the URL, the port `parseUrl` hands on — the one `connectSync` is called with AND
+the one in the `host:port` cache/lease key — is below 65536. -/
+theorem U1_port_in_range (u : UrlIn) (p : Nat) (h : parseUrlPort u = .ok p) : p < 65536 := parseUrlPort_lt u p h
+
+/-- **U2 (observation: the port wraps).** `static_cast<std::uint16_t>(std::stoi(...))`: an explicit port `p + 65536` (that still
+fits `int`) is the SAME port, the same connection and the same cache key as `p` — `http://h:65616/` is sent to port 80. Not a
+clause of C17 (request and cache key agree, so nothing is reused wrongly); recorded as the behaviour of the code. -/
+theorem U2_port_wraps (u : UrlIn) (p : Nat) (h : p + 65536 ≤ 2147483647) :
+    parseUrlPort { u with port := some (p + 65536) } = parseUrlPort { u with port := some p } :=
+  parseUrlPort_wrap u p h
+
+example : parseUrlPort { port := some 65616 } = .ok 80 ∧ parseUrlPort { port := some 99999999999 } = .error .other ∧
+    parseUrlPort { wellFormed := false } = .error .invalidArg ∧ parseUrlPort { https := true } = .ok 443 :=
+  ⟨by rfl, by rfl, by rfl, by rfl⟩
+
+/-- **U3 (a URL that does not parse sends nothing, within the budget).** `parseUrl` throws `std::invalid_argument` (no match) or
+`std::out_of_range` (port beyond `int`) — nothing else — before the lease is taken; whichever it is: at most `budget + 1`
+calls of `executeRequest`, exactly ONE for a non-idempotent method (an idempotent method re-tries the deterministic failure:
+observation). For `invalid_argument` the count is the one of the full model, which makes no engine call and leaves the client
+unchanged. -/
+theorem U3_url_failure (u : UrlIn) (e : Exn) (m : String) (retries : Int) (h : parseUrlPort u = .error e) :
+    (e = .invalidArg ∨ e = .other) ∧ failAttempts m retries e ≤ retries.toNat + 1 ∧
+    (isIdempotent m = false → failAttempts m retries e = 1) := by
+  have he := parseUrlPort_error u e h
+  refine ⟨he, ?_, ?_⟩
+  · have := failLoop_le m retries e (retries.toNat + 2) 0
+    simpa [failAttempts] using this
+  · intro hm
+    exact failLoop_not_eligible m retries e (retries.toNat + 1) 0 hm (by rcases he with rfl | rfl <;> decide)
+
+theorem U3_tie (cfg : Cfg) (c : Client) (rq : Request) (hu : rq.urlOk = false) :
+    (performRequest cfg c rq).log.length = failAttempts rq.method rq.retries .invalidArg ∧
+    (performRequest cfg c rq).evs = [] ∧ (performRequest cfg c rq).client = c :=
+  performLoop_urlFail cfg rq hu (rq.retries.toNat + 2) 0 c
+
+example : failAttempts "GET" 3 .other = 4 ∧ failAttempts "POST" 3 .other = 1 := by decide
+
+/-- **R6 (lease wait, every wake-up pattern).** `acquireLease` with `leaseAcquireTimeout = d > 0`: however often and whenever the
+waiter is woken — by `notify_all` of exchanges with OTHER hosts, spuriously, by `cleanup` — the wait is over no later than `d`
+after it began; a time-out is reported at exactly `d`; and the lease is granted only by a wake-up (or the entry test) that saw the
+host free and the client not closing. (The model's deadline is DEFINED from the extracted form of the wait: with a loop that re-arms
+`wait_for(lock, d)` after each wake-up this theorem does not build.) -/
+theorem R6_lease_wait_bounded (d : Nat) (free0 closing0 : Bool) (wakes : List Wake) :
+    (acquireLeaseTimed d free0 closing0 wakes).time ≤ d ∧
+    (∀ t, acquireLeaseTimed d free0 closing0 wakes = .timedOut t → t = d) ∧
+    ((acquireLeaseTimed d free0 closing0 wakes).ans = .granted →
+      closing0 = false ∧ (free0 = true ∨ ∃ w ∈ wakes, w.free = true ∧ w.closing = false)) := by
+  unfold acquireLeaseTimed
+  cases closing0 with
+  | true => simp [LeaseOut.time, LeaseOut.ans]
+  | false =>
+    cases free0 with
+    | true => simp [LeaseOut.time, LeaseOut.ans]
+    | false =>
+      have := leaseLoop_bound d 0 wakes 0 (Nat.zero_le _)
+      simpa using this
+
+/-- the seeded scenario (C17-d): a caller completes an exchange with ANOTHER host every `step` ms, `n` times, each release waking
+the same-host waiter; the host stays leased: the waiter times out at exactly `d`, whatever `step` and `n` -/
+theorem R6_lease_wait_foreign_wakeups (d step n : Nat) :
+    acquireLeaseTimed d false false (foreignWakes step n 0) = .timedOut d := by
+  have := leaseLoop_held d 0 (foreignWakes step n 0) 0 (Nat.zero_le _) (foreignWakes_held step n 0)
+  simpa [acquireLeaseTimed] using this
+
+/-- non-vacuity: seven wake-ups 40 ms apart do not move a 250 ms deadline; a wake-up that sees the host free grants at once; one that
+comes after the deadline is too late even if the host is free by then... unless it is what the deadline check itself sees -/
+example : acquireLeaseTimed 250 false false (foreignWakes 40 7 0) = .timedOut 250 ∧
+    acquireLeaseTimed 250 false false [⟨40, false, false⟩, ⟨80, true, false⟩] = .granted 80 ∧
+    acquireLeaseTimed 250 false false [⟨40, false, false⟩, ⟨90, false, true⟩] = .closing 90 ∧
+    acquireLeaseTimed 250 false false [⟨300, true, false⟩] = .granted 250 ∧
+    acquireLeaseTimed 250 true false [] = .granted 0 := by decide
+
+/-- **L1 (cleanup).** `cleanup()` sets `_closing` for good, closes exactly the cached sessions and leaves an empty cache. -/
+theorem L1_cleanup (lc : LClient) :
+    (cleanup lc).1.closing = true ∧ (cleanup lc).1.client.conns = [] ∧
+    (cleanup lc).2 = lc.client.conns.map (fun p => Ev.close p.2) :=
+  ⟨(cleanup_spec lc).1, (cleanup_spec lc).2.1, (cleanup_spec lc).2.2.1⟩
+
+/-- **L2 (a cleaned-up client is dead, safely).** After `cleanup()` EVERY request — any method, budget, script — makes no engine call
+at all (no connect, no send: nothing reaches the wire), leaves the cache empty, reaches `sendSync` in no attempt, makes at most
+`budget + 1` attempts, and (URL well-formed) ends in `std::runtime_error`. -/
+theorem L2_after_cleanup_every_request_fails (cfg : Cfg) (lc : LClient) (rq : Request) :
+    let lc' := (cleanup lc).1
+    let r := performRequestL cfg lc' rq
+    r.evs = [] ∧ r.client.conns = [] ∧ (∀ lg ∈ r.log, lg.reachedSend = false ∧ lg.receives = 0) ∧
+    r.log.length ≤ rq.retries.toNat + 1 ∧ (rq.urlOk = true → r.result = .error .runtime) := by
+  intro lc' r
+  have hcl : lc'.closing = true := (cleanup_spec lc).1
+  have hcn : lc'.client.conns = [] := (cleanup_spec lc).2.1
+  have hr : r = performRequest cfg lc'.client (forceClosing rq) := by
+    show performRequestL cfg lc' rq = _
+    simp [performRequestL, hcl]
+  have hall : ∀ i, ((forceClosing rq).script i).lease = .closing := fun _ => rfl
+  obtain ⟨h1, h2, h3, h4⟩ := performLoop_closing cfg (forceClosing rq) hall ((forceClosing rq).retries.toNat + 2) 0 lc'.client
+  have hf := performLoop_fuel cfg (forceClosing rq) ((forceClosing rq).retries.toNat + 2) 0 lc'.client (by omega)
+  have hlen := performLoop_length cfg (forceClosing rq) ((forceClosing rq).retries.toNat + 2) 0 lc'.client
+  rw [hr]
+  refine ⟨h1, ?_, h3, ?_, ?_⟩
+  · show (performLoop cfg (forceClosing rq) _ 0 lc'.client).client.conns = []
+    rw [h2]; exact hcn
+  · simpa [performRequest, forceClosing] using hlen
+  · intro hu
+    exact h4 hf hu
+
+/-- non-vacuity: a client with a cached connection; cleanup closes session 1; a GET with budget 2 then fails three times at the lease -/
+example :
+    let c1 := (executeRequest {} {} true 0 { recvs := [.complete {}] }).1
+    let lc := (cleanup { client := c1 }).1
+    (cleanup { client := c1 }).2 = [.close 1] ∧
+    (performRequestL {} lc { method := "GET", retries := 2, script := fun _ => { recvs := [.complete {}] } }).log.length = 3 ∧
+    (performRequestL {} lc { method := "POST", retries := 2, script := fun _ => { recvs := [.complete {}] } }).log.length = 1 := by
+  decide
+
+/-- **G (skeleton facts the model relies on but does not compute with).** Pinned here so that a change of any of them stops the
+build: what runs before / inside the pre-send region, the comparison of the response cap, `receiveSync` never reports success
+with zero bytes, and every thrown type on the request path is one the model knows. -/
+theorem G_skeleton_pins :
+    Gen.HttpRetry.beforePreSend = ["parseUrl", "acquireLease"] ∧
+    Gen.HttpRetry.preSendCalls = ["acquireConnection", "setReadMode", "dropConnection"] ∧
+    Gen.HttpRetry.capCmp = ">" ∧ Gen.HttpRetry.receiveOkHasBytes = true ∧
+    Gen.HttpRetry.leaseWaitForm = "wait_for_pred" ∧
+    exnOfName Gen.HttpRetry.portRangeThrow = .other ∧ exnOfName Gen.HttpRetry.urlFailThrow = .invalidArg := by
+  decide
+
+/-! ### Link to the byte-level model of the response framer (C15's `Model/HttpClientFraming.lean`, imported read-only) -/
+
+/-- **R4 (bytes): the two models of the reuse decision are one.** For every method, cap, `reuseConnections`, every script of
+`receiveSync` answers carrying the RECEIVED BYTES, every client state and host: C15's byte-level `executeReceive` drops the
+connection iff C17's `underLease` — run on the attempt ABSTRACTED from the same bytes (`Link.absAttempt`: one `RecvEv` per
+`receiveSync`, `surplus` = the framer's `forceEvict`, `residue` = bytes left unread in the transport, `conn`/`version` = what
+`parseHeaderBlock` extracted) — leaves nothing cached for the host; and the result classes agree. `RespInfo.conn/version/surplus`
+and `Attempt.residue` are therefore no longer free inputs: they are functions of the bytes. -/
+theorem R4_bytes_reuse_decision_agrees (method : Bytes) (mrb jmp : Nat) (reuse : Bool) (script : List Http.Recv)
+    (c : Client) (h : Host) :
+    (((Http.executeReceive method mrb jmp reuse script).2 = true) ↔
+      ((underLease { reuse := reuse } c h (Link.absAttempt method (Http.effectiveCap mrb jmp) script)).1.conns.lookup h = none)) ∧
+    (underLease { reuse := reuse } c h (Link.absAttempt method (Http.effectiveCap mrb jmp) script)).2.1.result =
+      Link.absResult (Http.executeReceive method mrb jmp reuse script).1 :=
+  Link.reuse_decision_agrees method mrb jmp reuse script c h
+
+/-- the two Lean readings of the C++ `responseRequestsClose` (C15: split/trim/lower/contains; C17: the index loop) agree on
+every parsed response -/
+theorem R4_bytes_close_signal_agrees (r : Http.Resp) :
+    Http.responseRequestsClose r = responseRequestsClose (Http.hdrFind r.headers (Http.ascii "Connection")) r.version :=
+  Link.rrc_agree r
+
+/-- **R4 (bytes): any received byte beyond the message ⇒ not cached.** If the byte-level run ends in a response and ANY received
+byte lies beyond the framed message — handed to the framer (`forceEvict`) or left in the transport (`residual`) — nothing is
+cached for the host afterwards, whatever the client state and configuration. -/
+theorem R4_bytes_beyond_message_not_cached (method : Bytes) (mrb jmp : Nat) (reuse : Bool) (script : List Http.Recv)
+    (c : Client) (h : Host) (st : Http.St) (r : Http.Resp) (fe residual : Bool)
+    (hrun : Http.runScript method (Http.effectiveCap mrb jmp) {} script = (st, .response r fe, residual))
+    (hbeyond : st.forceEvict = true ∨ fe = true ∨ residual = true) :
+    (underLease { reuse := reuse } c h (Link.absAttempt method (Http.effectiveCap mrb jmp) script)).1.conns.lookup h = none :=
+  Link.received_byte_beyond_message_not_cached method mrb jmp reuse script c h st r fe residual hrun hbeyond
+
+/-- non-vacuity (concrete bytes): a keep-alive `Content-Length: 0` response followed by ONE surplus byte in the same delivery is
+not cached; the same response without that byte is -/
+theorem R4_bytes_demo :
+    (underLease { reuse := true } {} 0 (Link.absAttempt (Http.ascii "GET") (Http.effectiveCap 1048576 0)
+      [.data (Link.demoResp ++ [88])])).1.conns.lookup 0 = none ∧
+    (underLease { reuse := true } {} 0 (Link.absAttempt (Http.ascii "GET") (Http.effectiveCap 1048576 0)
+      [.data Link.demoResp])).1.conns.lookup 0 ≠ none := by
+  exact ⟨Link.demo_surplus_not_cached, Link.demo_exact_cached⟩
+
+/-- **R6 (the list of timed waits is complete; observation on DNS).** Besides lease / connect / receive / probe the request path
+has two more timed waits: `sendSync`, bounded by `requestTimeout` like every receive, and — only for a host NAME other than
+`localhost` — the DNS look-up inside `resolveHostAddress`, whose length is `DnsClient`'s own default (5 s per query, 3 retries,
+A and AAAA in turn), which NO `HttpClient::Config` value bounds (observation: the clause "configured timeout" has no handle on
+it; a resolution failure falls through to `connectSync` with the literal name). -/
+theorem R6_send_and_dns_waits (t : Timeouts) :
+    waitMs t "send" = some t.request ∧ Gen.HttpRetry.timedWaits.lookup "dns" = some "dnsClientDefaults" ∧ waitMs t "dns" = none ∧
+    Gen.HttpRetry.timedWaits.length = 6 := by
+  simp [waitMs, evalWait, Gen.HttpRetry.timedWaits, List.lookup]
+
+/-- **S1 (transport start failure).** `ensureInitialized()` runs before the retry loop: when the transport cannot be started the
+caller gets `std::runtime_error` after ZERO attempts — no `executeRequest` call, no engine call, client unchanged — whatever the
+method and budget (a start failure is not retried even for an idempotent method); otherwise the call is the loop of L2/R1–R6. -/
+theorem S1_start_failure_no_attempt (cfg : Cfg) (lc : LClient) (rq : Request) :
+    (performRequestS cfg lc false rq).log = [] ∧ (performRequestS cfg lc false rq).evs = [] ∧
+    (performRequestS cfg lc false rq).client = lc.client ∧ (performRequestS cfg lc false rq).result = .error .runtime ∧
+    performRequestS cfg lc true rq = performRequestL cfg lc rq := by
+  have : exnOfName Gen.HttpRetry.startFailThrow = .runtime := by decide
+  simp [performRequestS, this]
 
 end Iora.C17
